@@ -70,10 +70,13 @@ func pool(thorough bool) []cval {
 		{Src: "(1 == 1)", NonZero: true}, {Src: "(1 == 2)", Zero: true}, {Src: "(!nil)", NonZero: true}, {Src: "[].empty?", NonZero: true}, {Src: "1.kindOf?(Str)", Zero: true}, {Src: `"true".decJSON`, NonZero: true},
 		{Src: "[1]._iter", NonZero: true}, {Src: `"a"._iter`, NonZero: true}, {Src: "(1:3)._iter", NonZero: true}, {Src: "{a: 1}._iter", NonZero: true}, {Src: "%{1: 2}._iter", NonZero: true}, {Src: "[]._iter", NonZero: true}, {Src: "<{|x| yield x}>.new(1)", NonZero: true},
 		{Src: "1.try"}, {Src: "nil.try"}, {Src: "1.try./(0)"}, {Src: "1.try./(0).err"}, {Src: `"nan".F`},
+		// negative zero is the zero value 0.0 (`-0.0 == 0.0`), however it is produced
+		{Src: "(-0.0)", Zero: true}, {Src: "(0.0 * -1)", Zero: true}, {Src: `"-0".F`, Zero: true}, {Src: "0.0.-%", Zero: true}, {Src: "Float.bear.new(-0.0)", Zero: true},
+		// a user-defined B that yields something other than a boolean: the value is false (B does not yield true)
+		{Src: "{B: 1}"}, {Src: `{B: "yes"}`}, {Src: "{n: 3, B: m{.n}}"}, {Src: "{B: m{[3]}}.bear"}, {Src: "7.bear({B: 1})"},
 	}
 	if thorough {
-		p = append(p, cval{Src: "(-0.0)"},
-			cval{Src: "(0:0)"}, cval{Src: "Float.bear.new(2.0)"}, cval{Src: "{B: true}.bear"}, cval{Src: "{B: false}.bear({x: 1})"},
+		p = append(p, cval{Src: "(0:0)"}, cval{Src: "Float.bear.new(2.0)"}, cval{Src: "{B: true}.bear"}, cval{Src: "{B: false}.bear({x: 1})"},
 			cval{Src: "Kernel"}, cval{Src: "Either"}, cval{Src: "Iter"}, cval{Src: "Comparable"}, cval{Src: "JSON"}, cval{Src: "Diamond"}, cval{Src: "Num"},
 			cval{Src: "9223372036854775807"}, cval{Src: "{B: m{[]}}"}, cval{Src: `{B: "true"}`}, cval{Src: "true.bear"}, cval{Src: "false.bear"})
 	}
@@ -95,6 +98,10 @@ var constructs = []construct{
 	{"guarded-yield", func(k string) string { return fmt.Sprintf(`<{|| yield tr("T", 11) if %s}>.new.next`, k) }, "T\n", "11", "", "E:StopIterErr: iter stopped"},
 	{"guarded-defer", func(k string) string { return fmt.Sprintf("defer tr(\"D\", 0) if %s\ntr(\"B\", 22)", k) }, "B\nD\n", "22", "B\n", "22"},
 	{"not", func(k string) string { return "!" + k }, "", "false", "", "true"},
+	{"not-not", func(k string) string { return "!!" + k }, "", "true", "", "false"},
+	{"not-paren-not", func(k string) string { return "!(!" + k + ")" }, "", "true", "", "false"},
+	{"not-method", func(k string) string { return k + ".!" }, "", "false", "", "true"},
+	{"if-not-not", func(k string) string { return fmt.Sprintf(`tr("T", 11) if !!%s else tr("E", 22)`, k) }, "T\n", "11", "E\n", "22"},
 	{"and-traced", func(k string) string { return fmt.Sprintf(`%s && tr("R", 55)`, k) }, "R\n", "55", "", ""},
 	{"or-traced", func(k string) string { return fmt.Sprintf(`%s || tr("R", 55)`, k) }, "", "", "R\n", "55"},
 	{"nested-if", func(k string) string {
@@ -189,7 +196,7 @@ func checkValue(c *core.Ctx, p []cval, i int, pairs bool) {
 		}
 	}
 	for q, cs := range constructs {
-		if cs.name == "not" && p[i].NoBang {
+		if strings.Contains(cs.name, "not") && p[i].NoBang {
 			continue
 		}
 		o := obs[base+q]
